@@ -26,6 +26,7 @@ func propC15(p *Prog, r *Report) {
 
 	c15Singletons(p, r)
 	c15UnsafeAPIs(p, r)
+	c06ReadersDoNotWrite(p, r, "C15.c")
 	n := c06GuardedBy(p, r, "C15.c")
 	n += c15GuardedFields(p, r)
 	r.Floor("C15.c", "guarded-accesses", n, 50)
